@@ -126,7 +126,8 @@ class BlockingAsyncRule(BaseLintRule):
         """
         if self._config_override is not None:
             return self._config_override
-        return load_linter_config(context, "blocking-async", BlockingAsyncConfig)
+        key = "blocking_async" if "blocking_async" in getattr(context, "metadata", {}) else "blocking-async"
+        return load_linter_config(context, key, BlockingAsyncConfig)
 
     def _build_violations(
         self,
